@@ -223,6 +223,12 @@ func (en *Env) ident(name string) Val {
 	if v, ok := en.vars[name]; ok {
 		return v
 	}
+	// inside old(): parameters denote their entry values
+	if en.fr != nil && en.old != nil && en.st == en.old && en.fr.params != nil {
+		if v, ok := en.fr.params[name]; ok {
+			return v
+		}
+	}
 	// function locals
 	if en.fr != nil {
 		if a := en.findLocal(name); a != nil {
@@ -781,6 +787,14 @@ func (en *Env) callExpr(e *ECall) Val {
 			x := en.eval(e.Args[0])
 			y := en.eval(e.Args[1])
 			return boolVal(en.ex.errIs(x, y))
+		case "aeadkey":
+			// aeadkey(c): base of the key slice the AEAD c was created from
+			x := en.eval(e.Args[0])
+			if len(x.L) != 2 {
+				en.fail("aeadkey needs a cipher.AEAD")
+			}
+			kf := en.ex.declFun("aeadkey", []string{sInt}, sInt)
+			return Val{T: types.Typ[types.UnsafePointer], L: []string{app(kf, x.L[1])}}
 		case "fresh":
 			// fresh(x): the object was allocated during this call
 			x := en.eval(e.Args[0])
